@@ -35,6 +35,16 @@ def run(name, ns, na, script, total, seed=0, epsilon=0.5):
         setattr(mod, attr, w)
         patched.append((attr, orig))
     res = {"name": name, "raised": None}
+    queries = []      # (environment steps so far, observation the behaviour policy was asked about, action it returned)
+    if hasattr(mod, "epsilon_greedy_policy"):
+        orig_pol = mod.epsilon_greedy_policy
+
+        def pol(q_table, observation, *a, **k):
+            out = orig_pol(q_table, observation, *a, **k)
+            queries.append((sum(1 for e in env.log if e[0] == "step"), int(observation), int(out)))
+            return out
+        mod.epsilon_greedy_policy = pol
+        patched.append(("epsilon_greedy_policy", orig_pol))
     try:
         q = jnp.zeros((ns, na))
         if name == "q_learning":
@@ -61,7 +71,7 @@ def run(name, ns, na, script, total, seed=0, epsilon=0.5):
     finally:
         for attr, orig in patched:
             setattr(mod, attr, orig)
-    res.update({"log": env.log, "kept": kept, "env": env, "tables": tables, "n_states": ns, "n_actions": na})
+    res.update({"log": env.log, "kept": kept, "env": env, "tables": tables, "n_states": ns, "n_actions": na, "queries": queries})
     return res
 
 
@@ -105,6 +115,24 @@ def check_kept(res):
         for i in range(len(qs) - 1):
             if qs[i + 1][0] == "transition" and (qs[i][0] != "q_update" or qs[i][1:5] != qs[i + 1][1:5]):
                 return "Dyna-Q's direct update is not applied to the real transition", {"update": qs[i][1:], "transition": qs[i + 1][1:]}
+    return None
+
+
+def check_conditioned(res):
+    """C01, last sentence, for the tabular loops: the action passed to environment step k is what the behaviour policy returned
+    when it was asked, after step k-1 (or the reset), about the observation the environment returned last - at the start of an
+    episode the reset observation, not the previous episode's final observation."""
+    steps = [e for e in res["log"] if e[0] == "step"]
+    if steps and not res["queries"]:
+        return "the behaviour policy (epsilon_greedy_policy of the routine's module) was never asked", {}
+    for k, e in enumerate(steps):
+        asked = [(o, a) for n, o, a in res["queries"] if n == k]
+        if (e[1], e[2]) not in asked:
+            boundary = k > 0 and (steps[k - 1][5] or steps[k - 1][6])
+            return ("the action passed to the environment was not obtained from the behaviour policy at the current observation"
+                    + (" (first step of a new episode)" if boundary else "")), \
+                {"step": k, "current_observation": e[1], "action": e[2], "policy_queries_since_the_previous_step": asked,
+                 "previous_step_final_observation": steps[k - 1][4] if k else None}
     return None
 
 
